@@ -1217,4 +1217,44 @@ def launch_guards(ctx):
     return res
 
 
-RULES = [launch_guards, xy_exchange, no_stale, field_wiring, config_table, aim, trace_entry, in_disk, registry]
+def telecentric_flag(ctx):
+    """'object space telecentric' can be declared in three places (Optic
+    attribute, FieldGroup.set_telecentric, Aperture(object_space_telecentric));
+    the ray generator must honour the declaration whichever documented way it
+    was made."""
+    P = ctx.P
+    res = Result('TELECENTRIC-FLAG', 'every documented way of declaring a '
+                 'telecentric object space reaches the ray generator')
+    c = _rg(P)
+    reads = set()
+    for m in c.methods.values():
+        for x in ast.walk(m.node):
+            if isinstance(x, ast.Attribute) and 'telecentric' in x.attr:
+                reads.add(unparse(x))
+    setters = []
+    if P.has('FieldGroup.set_telecentric'):
+        setters.append('FieldGroup.set_telecentric')
+    ap = P.func('Aperture.__init__')
+    if any('telecentric' in p_ for p_ in ap.params):
+        setters.append('Aperture(object_space_telecentric=...)')
+    res.saw(ap)
+    opt = P.classes['Optic']
+    prop = opt.props.get('obj_space_telecentric')
+    unified = prop is not None and 'fields' in unparse(prop.node, 100000)
+    direct = any('fields.telecentric' in r or 'aperture.object_space' in r
+                 for r in reads)
+    if not setters or unified or direct:
+        res.ok(f'generator reads {sorted(reads)}; declarations unified')
+    else:
+        res.fail(ctx.finding(
+            'TELECENTRIC-FLAG', c.methods['generate_rays'], None,
+            f'the ray generator reads only {sorted(reads)}, but a telecentric '
+            f'object space can also be declared through {setters}, which set '
+            f'other flags: after optic.fields.set_telecentric(True) the chief '
+            f'ray is tilted (M = -0.0387 instead of 0) and an EPD + '
+            f'telecentric combination is traced instead of rejected',
+            construct='telecentric declaration ignored'))
+    return res
+
+
+RULES = [telecentric_flag, launch_guards, xy_exchange, no_stale, field_wiring, config_table, aim, trace_entry, in_disk, registry]
